@@ -14,27 +14,38 @@ Definition C20_statement : Prop := gate_statement.
 Theorem C20_refuted : ~ C20_statement.
 Proof.
   intros H. destruct gate_refuted_lightweight as (M & W & S & A).
-  destruct (H _ _ _ _ _ W S) as [H1 _]. rewrite (H1 M) in A. discriminate.
+  destruct (H _ _ _ _ _ _ W S) as [H1 _]. rewrite (H1 M) in A. discriminate.
 Qed.
 
 Theorem C20_refuted_perms_unauth :
-  exists f c l ps, wf_cred c /\ perms f = Some ps /\ serve f c l true true = Invoked /\ authed c = false.
+  exists f c l ps, wf_cred c /\ perms f = Some ps /\ serve f c l true true None = Invoked /\ authed c = false.
 Proof.
   destruct gate_refuted_perms_unauth as (P & W & S & A).
   exists (build [Permissions [1]; Authentication false]), impostor, (fun _ => false), [1]. auto.
 Qed.
 
 (* For every flag combination that satisfies the decidable predicate safe_flags (not lightweight with
-   a requirement; permissions imply must-authenticate), every credential outcome and every outcome of
-   the other request checks: handler invoked -> authenticated when required, and authenticated with
-   all required permissions or administrator when permissions are required. *)
+   a requirement; permissions imply must-authenticate), every credential outcome, every outcome of
+   the other request checks and every body (absent, valid or invalid for the route's payload
+   validations): handler invoked -> authenticated when required, and authenticated with all required
+   permissions or administrator when permissions are required. *)
 Theorem C20_gate_partial :
-  forall f c lookup0 media_ok post_ok,
-    safe_flags f = true -> wf_cred c -> serve f c lookup0 media_ok post_ok = Invoked ->
+  forall f c lookup0 media_ok post_ok body,
+    safe_flags f = true -> wf_cred c -> serve f c lookup0 media_ok post_ok body = Invoked ->
     (must_auth f = true -> authed c = true) /\
     (forall ps, perms f = Some ps ->
        authed c = true /\ (admin c = true \/ forallb (granted c) ps = true)).
 Proof. exact gate. Qed.
+
+(* A failed authentication or permission check is final on a non-lightweight route: whatever the
+   body and the payload validations of the route, the handler is not invoked afterwards. *)
+Theorem C20_rejected_not_invoked :
+  forall f c lookup0 media_ok post_ok body,
+    lightweight f = false ->
+    (must_auth f = true /\ authed c = false) \/
+    (exists ps x, perms f = Some ps /\ admin c = false /\ In x ps /\ granted c x = false) ->
+    serve f c lookup0 media_ok post_ok body <> Invoked.
+Proof. exact rejected_not_invoked. Qed.
 
 (* Builder: a declaration that never calls Authentication(false) or LightWeight(true) yields safe
    flags, and must-authenticate whenever Authentication(true) or Permissions(..) was called -
@@ -51,12 +62,14 @@ Theorem C20_builder_refuted :
 Proof. exists [Authentication true; LightWeight true]. exact builder_refuted. Qed.
 
 Example C20_nonvacuous :
-  let f := build [CanAuthenticate true; Permissions [1;2]; Authentication true; Permissions [2;3]] in
+  let f := build [CanAuthenticate true; Permissions [1;2]; ValidateUsing; Authentication true; Permissions [2;3]] in
   let alice := mkCred false true false true [] (fun p => p <=? 3) in
   let bob := mkCred false true false true [3;1] (fun _ => true) in
   safe_flags f = true /\ perms f = Some [1;2;3] /\ wf_cred alice /\
-  serve f alice (fun _ => false) true true = Invoked /\
-  serve f bob (fun _ => false) true true = Status 403 /\
-  serve f nobody (fun _ => false) true true = Status 403 /\
+  valid f = true /\
+  serve f alice (fun _ => false) true true (Some true) = Invoked /\
+  serve f alice (fun _ => false) true true (Some false) = Status 400 /\
+  serve f bob (fun _ => false) true true (Some true) = Status 403 /\
+  serve f nobody (fun _ => false) true true (Some true) = Status 403 /\
   forallb (fun c => negb (withdraws c)) [CanAuthenticate true; Permissions [1;2]; Authentication true; Permissions [2;3]] = true.
 Proof. cbn. repeat split; try reflexivity; intros H; try discriminate; auto. Qed.
